@@ -56,7 +56,11 @@ func cloneStmt(s Stmt) Stmt {
 	case *While:
 		return &While{CloneExpr(s.Cond), cloneStmts(s.Body)}
 	case *ForRange:
-		return &ForRange{s.Var, CloneExpr(s.Lo), CloneExpr(s.Hi), s.Incl, cloneStmts(s.Body)}
+		var st Expr
+		if s.Step != nil {
+			st = CloneExpr(s.Step)
+		}
+		return &ForRange{s.Var, CloneExpr(s.Lo), CloneExpr(s.Hi), s.Incl, cloneStmts(s.Body), st}
 	case *ForIn:
 		return &ForIn{s.Idx, s.Val, CloneExpr(s.X), cloneStmts(s.Body)}
 	case *Match:
@@ -207,6 +211,9 @@ func walkStmt(s Stmt, list *[]Stmt, at int, v Visitor) {
 	case *ForRange:
 		ex(&s.Lo, "")
 		ex(&s.Hi, "")
+		if s.Step != nil {
+			ex(&s.Step, "")
+		}
 		walkList(&s.Body, v)
 	case *ForIn:
 		ex(&s.X, "")
